@@ -8,7 +8,7 @@ ALLOWED_AXIOMS = set()
 KINDS = {2, 3}
 THEOREMS = ["c08_converge", "c08_same_order", "c08_commit_order"]
 MANIFEST = {
-    "text": "Coq theorems over a concurrent model (Model/ConcSub.v) in which any number of publishers (update_entries), subscribers (subscribe) and housekeeping runs execute the lock programs of the code, each Act being the critical-section body of broker.rs at that position, under EVERY interleaving at lock-acquisition granularity and every grant order of the locks (a superset of tokio's FIFO order): once every call has returned the last value each live subscriber was sent is the stored value; what a subscriber was sent after its snapshot is a suffix of one global notification sequence, which equals the store's commit order when idle; at most one change is ever applied-but-not-yet-notified. The proof is an inductive invariant (holders of the database lock as a function of program counters, writer exclusivity, snapshot freshness while the read guard is held, last-sent = stored unless a publisher is between apply and notify). Tie to the code: the three lock programs are compared with traces recorded from the instrumented real operations on every run, every lock site is inventoried, and a scheduler polling the REAL futures explores the interleavings of 1-2 subscribers, 1-3 publishers, a query subscriber and housekeeping (exhaustive DFS within a budget, seeded random beyond) checking stale-subscriber and order predicates.",
+    "text": "Coq theorems over a concurrent model (Model/ConcSub.v) in which any number of publishers (update_entries), subscribers (subscribe) and housekeeping runs execute the lock programs of the code, each Act being the critical-section body of broker.rs at that position, under EVERY interleaving at lock-acquisition granularity and every grant order of the locks (a superset of tokio's FIFO order): once every call has returned the last value each live subscriber was sent is the stored value; what a subscriber was sent after its snapshot is a suffix of one global notification sequence, which equals the store's commit order when idle; at most one change is ever applied-but-not-yet-notified. The proof is an inductive invariant (holders of the database lock as a function of program counters, writer exclusivity, snapshot freshness while the read guard is held, last-sent = stored unless a publisher is between apply and notify). Tie to the code: the three lock programs are compared with traces recorded from the instrumented real operations on every run, every lock site is inventoried, and a scheduler polling the REAL futures explores the interleavings of 1-2 subscribers, 1-3 publishers, a query subscriber, subscribers (change and query) that register and go away, and housekeeping (exhaustive DFS within a budget, seeded random beyond) checking stale-subscriber and order predicates.",
     "note": "Trusted: Coq kernel (axiom-free); hooks H1-H3 and the manual-poll executor; that the code between two lock events touches only data guarded by the locks held (Rust's guards) so that each Act is atomic; one signal and Int32 values in the model (the argument is per signal); query subscriptions take part only in the schedule search, not in the theorem. The schedule search is a counterexample search, not the proof.",
     "technique": "machine-checked proof in Coq (inductive invariant over all interleavings) + lock-trace correspondence + schedule search on the real futures",
 }
